@@ -83,6 +83,13 @@ is listed in `Gen.Access.readonly_module_containers`; findings in unreachable fu
 `Gen.Access.shared_state_outside_scope`.)  Threads that share no point object therefore share nothing. -/
 theorem no_shared_module_state : Gen.Access.shared_module_state = [] := rfl
 
+/-- **no_extra_object_state**: the methods of `PointJacobi`, `Point`, `CurveFp`, `Public_key`, `Private_key`, `Signature`,
+`VerifyingKey`, `SigningKey` store to NO attribute of an existing object (self, other, an argument, or an object reached from
+them) other than the two modelled cells of a `PointJacobi` and the key's `point` reference — construction of a fresh object
+(`__init__`, `__setstate__`, `self = cls(...)`) excluded.  A cache kept in a new instance attribute of a shared point or key
+(state the programs `M` do not have) makes this list non-empty. -/
+theorem no_extra_object_state : Gen.Access.extra_object_state = [] := rfl
+
 /-- every method of the class that touches the two fields is modelled -/
 theorem modelled_methods_cover (info : Nat → ObjInfo) :
     ∀ m ∈ Gen.Access.touched, m ∈ (methods info).map (·.1) := by
